@@ -154,7 +154,15 @@ def rule_r2(chk, p, t):
         adds = [n for n in cfg.nodes if n.kind == "stmt" and isinstance(n.ast, ast.AugAssign) and isinstance(n.ast.op, ast.Add) and "getStateChange(" in unparse(n.ast.value)]
         require(len(sets) == 1 and len(adds) == 1, "expected one thrust toggle and one impulse application", ae.node)
         isin = [n for n in cfg.nodes if n.kind == "cond" and isinstance(n.ast, ast.Call) and call_name(n.ast) == "isinstance" and "ScheduledFiniteThrust" in unparse(n.ast)]
-        fired = [n for n in cfg.nodes if n.kind == "cond" and "t_events[" in unparse(n.ast) and ".size > 0" in unparse(n.ast)]
+        # names bound to one event's reported times by the loop header (`for event, times in zip(events, t_events)`)
+        te = ae.params[1]
+        aliases = set()
+        for lp_ in [n for n in walk_no_nested(ae.node) if isinstance(n, ast.For)]:
+            if isinstance(lp_.iter, ast.Call) and call_name(lp_.iter) == "zip" and isinstance(lp_.target, ast.Tuple):
+                for a_, tg_ in zip(lp_.iter.args, lp_.target.elts):
+                    if unparse(a_) == te and isinstance(tg_, ast.Name):
+                        aliases.add(tg_.id)
+        fired = [n for n in cfg.nodes if n.kind == "cond" and ".size > 0" in unparse(n.ast) and (f"{te}[" in unparse(n.ast) or any(unparse(n.ast).startswith(a_ + ".") for a_ in aliases))]
         # an event is applied when the integrator reported it, or when it is due (its event function is zero) at the
         # time the integrator stopped for another event - nothing else
         due = [n for n in cfg.nodes if n.kind == "cond" and isinstance(n.ast, ast.Compare) and isinstance(n.ast.left, ast.Call) and unparse(n.ast.left.func) == "event" and isinstance(n.ast.ops[0], ast.Eq) and unparse(n.ast.comparators[0]) in ("0.0", "0")]
@@ -163,12 +171,18 @@ def rule_r2(chk, p, t):
         v = sets[0].ast.value
         ok = ok and isinstance(v, ast.Call) and call_name(v) == "getStateChangeCallback" and unparse(v.func.value) == "event"
         tdef = [n for n in walk_no_nested(ae.node) if isinstance(n, ast.Assign) and unparse(n.targets[0]) == "current_time"]
-        stop = inline_locals(ae, ast.parse("max(stop_times)", mode="eval").body)
-        ok = ok and tdef and all(unparse(x.value) == "t_events[event_index][-1]" or unparse(inline_locals(ae, x.value)) == unparse(stop) for x in tdef) and any(unparse(x.value) == "t_events[event_index][-1]" for x in tdef)
+        own_times = {f"{te}[event_index][-1]"} | {f"{a_}[-1]" for a_ in aliases}
+
+        def is_stop(e):
+            # the latest time any event reported: max over the last reported time of every event that fired
+            txt = unparse(inline_locals(ae, e))
+            return "max(" in txt and f"for times in {te} if times.size > 0" in txt and "times[-1]" in txt
+
+        ok = ok and tdef and all(unparse(x.value) in own_times or is_stop(x.value) for x in tdef) and any(unparse(x.value) in own_times for x in tdef)
         if due:
-            ok = ok and unparse(stop) == f"max([times[-1] for times in {ae.params[1]} if times.size > 0])" and all(unparse(inline_locals(ae, d.ast.left.args[0])) == unparse(stop) for d in due)
+            ok = ok and all(is_stop(d.ast.left.args[0]) for d in due)
         loops = [n for n in walk_no_nested(ae.node) if isinstance(n, ast.For)]
-        ok = ok and loops and unparse(loops[0].iter) == f"enumerate({ae.params[2]})"
+        ok = ok and loops and unparse(loops[0].iter) in (f"enumerate({ae.params[2]})", f"zip({ae.params[2]}, {te})", f"zip({te}, {ae.params[2]})")
         if ok:
             r.ok(ae.qualname, "an event that fired toggles the thrust (finite) or adds its impulse once (discrete)", ae.loc())
         else:
